@@ -67,6 +67,14 @@ CLAIMED.update({
         note="assumes showpeek() only peeks and str()/repr() in log lines are effect-free"),
 })
 
+CLAIMED.update({
+    "C02": dict(
+        technique="gate/dominator analysis on the grammar IR (xonsh-only terminals from the folded OPS table vs CPython's exact-token table, token-pair adjacency of the Python fragment, least-fixpoint confinement), path rules on parse(), table agreement",
+        category="other",
+        text="Decides the second sentence of the property and the listed mechanisms: every alternative building a xonsh runtime call is gated by a xonsh-only lexeme (or an impossible-in-Python token pair) or confined behind such gates; start rules end in ENDMARKER; a failed parse always raises; nothing accepts ERRORTOKEN and wildcard token items are confined; keyword tables equal CPython's; diagnostic rules are gated. Whether a Python alternative became too permissive (language inclusion against CPython) is NOT decided.",
+        note="trusts token.EXACT_TOKEN_TYPES / keyword of the running interpreter; the CFG reading over-approximates the PEG, so pair-absence is sound"),
+})
+
 NOT_APPLICABLE = {
     "C17": "quantifies over all grammars x all token strings; semantic equivalence of emitted code and a PEG interpreter cannot be decided from the shape of the generator source (DESIGN.md §5)",
 }
